@@ -1083,7 +1083,7 @@ def finalize_constraints(weights,
     return weights
   units = weights.shape[1]
   if units > 1:
-    lattice_sizes = lattice_sizes + [int(units)]
+    lattice_sizes = list(lattice_sizes) + [int(units)]
     if monotonicities:
       monotonicities = monotonicities + [0]
 
@@ -1916,7 +1916,7 @@ def project_by_dykstra(weights,
   if joint_unimodalities is None:
     joint_unimodalities = []
   if units > 1:
-    lattice_sizes = lattice_sizes + [int(units)]
+    lattice_sizes = list(lattice_sizes) + [int(units)]
     monotonicities = monotonicities + [0]
     unimodalities = unimodalities + [0]
 
@@ -2123,7 +2123,7 @@ def laplacian_regularizer(weights, lattice_sizes, l1=0.0, l2=0.0):
     l2 = [l2] * rank
 
   if weights.shape[1] > 1:
-    lattice_sizes = lattice_sizes + [int(weights.shape[1])]
+    lattice_sizes = list(lattice_sizes) + [int(weights.shape[1])]
     rank += 1
     if l1:
       l1 = list(l1) + [0.0]
@@ -2202,7 +2202,7 @@ def torsion_regularizer(weights, lattice_sizes, l1=0.0, l2=0.0):
     l2 = [math.sqrt(l2)] * rank
 
   if weights.shape[1] > 1:
-    lattice_sizes = lattice_sizes + [int(weights.shape[1])]
+    lattice_sizes = list(lattice_sizes) + [int(weights.shape[1])]
     rank += 1
     if l1:
       l1 = list(l1) + [0.0]
@@ -2557,7 +2557,7 @@ def assert_constraints(weights,
   del joint_unimodalities
 
   if weights.shape[1] > 1:
-    lattice_sizes = lattice_sizes + [int(weights.shape[1])]
+    lattice_sizes = list(lattice_sizes) + [int(weights.shape[1])]
     if monotonicities:
       monotonicities = monotonicities + [0]
   weights = tf.reshape(weights, shape=lattice_sizes)
